@@ -34,6 +34,9 @@ def states(tier, seed):
         if fm is not None and model == "tube":
             continue
         st.append(dict(pf=pf, side=side, ny=ny, model=model, nfac=nfac, fuel=fm, reserve=res, pm=pm, fam=fam))
+        # every inertial load source ALONE: without structural weight relief (the load factor reaches each source by its own wiring)
+        if pf == "swept" and (fm is not None or pm != "none") and not (fm is not None and pm != "none" and tier == "quick"):
+            st.append(dict(pf=pf, side=side, ny=ny, model=model, nfac=nfac, fuel=fm, reserve=res, pm=pm, relief=False, fam=fam))
     return st, 0
 
 
@@ -44,7 +47,8 @@ def run_state(s):
     ny = s["ny"]
     sym = s["side"] != "full"
     m = gen.make_mesh(s["pf"], 2, ny, s["side"], s["fam"], asym=(s["side"] == "full"), span=10.0, chord=1.6)
-    kw = dict(struct_weight_relief=True, distributed_fuel_weight=s["fuel"] is not None)
+    relief = s.get("relief", True)
+    kw = dict(struct_weight_relief=relief, distributed_fuel_weight=s["fuel"] is not None)
     if s["model"] == "wingbox":
         kw["Wf_reserve"] = s["reserve"]
     pmset = PM_SETS[s["pm"]]
@@ -112,11 +116,13 @@ def run_state(s):
         cg[1] = 0.0
     cmp("cg_location", p["cg_location"], cg, max(np.abs(nodes).max(), 1.0))
     Wtot = n * G0 * me.sum()
-    F, M = resultant(p["struct_states.struct_weight_loads"], nodes)
-    cmp("sum struct_weight_loads", F, [0, 0, -Wtot], abs(Wtot))
-    Mw = np.cross(mid, np.outer(me, [0, 0, -n * G0])).sum(axis=0)
-    cmp("moment struct_weight_loads", M, Mw, abs(Wtot) * np.abs(nodes).max())
-    total = ext + p["struct_states.struct_weight_loads"]
+    total = ext.copy()
+    if relief:
+        F, M = resultant(p["struct_states.struct_weight_loads"], nodes)
+        cmp("sum struct_weight_loads", F, [0, 0, -Wtot], abs(Wtot))
+        Mw = np.cross(mid, np.outer(me, [0, 0, -n * G0])).sum(axis=0)
+        cmp("moment struct_weight_loads", M, Mw, abs(Wtot) * np.abs(nodes).max())
+        total = ext + p["struct_states.struct_weight_loads"]
     if s["fuel"] is not None:
         vols = p["struct_setup.fuel_vols"]
         cmp("fuel_vols", vols, Le * p["A_int"])
